@@ -18,7 +18,6 @@ by GNU ld (reference); thorough adds 4 AArch64 pairs (wild vs ld.lld).
     `linker-diff --wild-defaults --ref <GNU ld output> <corrupted copy>` must report a problem.
     A corruption that goes unreported is a violation keyed
     missed:<section[>got|>gotplt]>:<relocation>:<referent class>:<mechanism>:<redirection>."""
-import base64
 import collections
 import json
 import os
@@ -395,14 +394,13 @@ EXTRA_IGNORE = {"aarch64": ["section.got.plt.entsize"], "x86_64": []}
 
 
 def diff_argv(ref, test, defaults=True, extra=()):
-    return [vlib.LINKER_DIFF, *(["--wild-defaults"] if defaults else []),
+    return [vlib.LINKER_DIFF, "--colour", "never", *(["--wild-defaults"] if defaults else []),
             *(["--ignore", ",".join(extra)] if extra else []), "--ref", ref, test]
 
 
 def linker_diff(ref, test, defaults=True, timeout=120, extra=()):
     """-> (status, keys, text). status: quiet / problems / error / crash / timeout."""
     cmd = diff_argv(ref, test, defaults, extra)
-    cmd[1:1] = ["--colour", "never"]
     rc, so, se = vlib.run(cmd, timeout=timeout)
     out = so.decode("utf-8", "replace")
     err = se.decode("utf-8", "replace")
@@ -805,7 +803,8 @@ def main():
                       "--wild-defaults; (b) every RELA record of every input section placed "
                       "by wild's .layout x every materialisation whose interpretation verifies "
                       "exactly (field / GOT slot / GOT slot behind PLT stub / dynamic relocation) "
-                      "x {next, plus8, zero}. distinct = (class, mechanism, outcome) triples",
+                      "x {next, plus8, zero}; run round-robin over classes under a wall-clock cap "
+                      "(capped=true when hit). distinct = (class, output kind, outcome) triples",
             "samples": samples,
             "exhaustive": not capped and not noisy_baseline,
             "capped": capped,
